@@ -405,6 +405,12 @@ func (p *plan) any(avoid stackitem.Item) stackitem.Item {
 
 func (p *plan) key() {
 	r := p.g.r
+	if r.Chance(1, 120) {
+		// an invalid key: the VM must FAULT (validateMapKey / Map.Add), the model predicts it
+		p.op([]opcode.Opcode{opcode.NEWARRAY0, opcode.NEWSTRUCT0, opcode.NEWMAP}[r.Intn(3)])
+		p.pushV(stackitem.NewArray(nil))
+		return
+	}
 	if r.Chance(1, 5) {
 		b := []byte{byte('a' + r.Intn(3))}
 		p.emit(pushDataI(b))
